@@ -42,6 +42,9 @@ def r1(ctx):
                 o2 = origin(b, s["r"]["o"]) if s["r"]["k"] == "use" else None
                 if not o2 or o1.get("p") != o2.get("p"):
                     same = False
+                # flow-sensitive: the very read that produced the returned value, not a later re-read of the (already advanced) cursor
+                if s["r"]["k"] == "use" and read_site(b, t["args"][1]) != read_site(b, s["r"]["o"]):
+                    same = False
             ctx.inst(R, "assign_ephemeral_port:same-candidate", same, s["s"], "the checked port is the returned port" if same else
                      "the in-use checks are applied to a different value than the returned port")
         if not rets:
